@@ -54,12 +54,14 @@ func (f *IPv4Filter) Add(cidr *net.IPNet) error {
 
 	f.mutex.Lock()
 	defer f.mutex.Unlock()
+	vhook(f, "add.locked")
 	if f.mode == modeList {
 		if f.index < listSize {
 			f.ipList[f.index] = [2]uint32{nip & ipv4Masks[ones-1], uint32(ones)}
 			f.index++
 		} else {
 			f.mode = modeMaps
+			vhook(f, "add.migrating")
 			for i := 0; i < len(f.ipMaps); i++ {
 				f.ipMaps[i] = make(map[uint32]bool)
 			}
@@ -89,6 +91,7 @@ func (f *IPv4Filter) Remove(cidr *net.IPNet) error {
 
 	f.mutex.Lock()
 	defer f.mutex.Unlock()
+	vhook(f, "remove.locked")
 	if f.mode == modeList {
 		for i := 0; i < f.index; i++ {
 			if uint32(ones) == f.ipList[i][1] && nip&ipv4Masks[ones-1] == f.ipList[i][0] {
@@ -112,6 +115,7 @@ func (f *IPv4Filter) Contains(ip net.IP) bool {
 
 	f.mutex.RLock()
 	defer f.mutex.RUnlock()
+	vhook(f, "contains.rlocked")
 	if f.mode == modeList {
 		for i := 0; i < f.index; i++ {
 			if f.ipList[i][1] > 0 && nip&ipv4Masks[f.ipList[i][1]-1] == f.ipList[i][0] {
